@@ -19,6 +19,11 @@ CHECKS = {
          "For 12 graph shapes (thorough: all graphs on <=3 files and named 4-file shapes) x every non-empty failing set of size <=2 (3) x every fault kind x every schedule, the real compile must return no model and an error naming a failing file, and terminate. Foreign-format faults (yaml/json/pb/textpb/pb.json/proto/xml) are injected in three graph positions.",
          "as C05; every bad content is one the compiler rejects when compiled alone",
          "DESIGN.md §4 C06"),
+ "C07": ("model_checking",
+         "preemption-bounded stateless DFS over schedules of 2-3 concurrent real compilations (points at every token fetch, lexer-state create/delete, mutex, read); exhaustive map-iteration-start enumeration via a runtime/map.go seam; all compile sequences up to length 3; separate free-running -race monitor",
+         "All pairs (thorough: also triples) of 7 sources compiled concurrently on the real parser under the cooperative scheduler, every schedule with <=1 preemption (<=2 on small pairs; thorough <=2 everywhere): each result must equal the solo result byte-for-byte (textpb+JSON) and the global lexer-state registry must be empty afterwards. Every source is compiled under all 17 map-iteration starts (bytes identical) and in every sequence up to length 3 in one process. A -race build of the same bodies runs 384 free-running compilations as a monitor.",
+         "interleavings only at hooked points and within the preemption bound; no state pruning (ANTLR state not observable); data races between points seen only by the -race monitor; map-order exhaustive for maps <= 8 entries",
+         "DESIGN.md §3.2-3.3, §4 C07"),
  "C18": ("model_checking",
          "explicit-state product of a reference path automaton with the real ChrootFs over all path strings up to the segment bound; loader runs on a recording filesystem",
          "Every path string over a 6-segment alphabet up to 5 (thorough 7) segments x absolute/relative x trailing slash x 7 root spellings x every wrapper operation (rename arguments independently) is pushed through the real syslutil.ChrootFs onto a recording filesystem; safety (nothing outside the root reaches the filesystem) and liveness (never-leaving spellings are served at root+canonical path) are checked on every transition. The real loader is also run on every (module spelling, import spelling) pair.",
